@@ -4,6 +4,7 @@
 //!                     the list of hand-modelled (native) functions/actions with token hashes.
 //! gen/PanicSites.v  : inventory of potential panic sites in non-test code.
 //! Later stages add Types / IntoOwned / Typestate / ApiSig (see the other modules).
+mod canon;
 mod grammar;
 mod sites;
 mod util;
